@@ -18,6 +18,10 @@ fn escape_go_string(value: &str) -> String {
             '\n' => escaped.push_str("\\n"),
             '\r' => escaped.push_str("\\r"),
             '\t' => escaped.push_str("\\t"),
+            // Go source may not contain NUL, and other control characters are unreadable raw
+            other if (other as u32) < 0x20 || other == '\u{7f}' => {
+                escaped.push_str(&format!("\\x{:02x}", other as u32))
+            }
             other => escaped.push(other),
         }
     }
